@@ -103,6 +103,9 @@ def ops_for(model):
             'B1:B4=9,8,7,6': ('calc', {i(B, 'S', 'B1:B4'): [[9], [8], [7], [6]]}, {k('B%d' % r): ('n', float(10 - r)) for r in (1, 2, 3, 4)}, None),
             'A1:A4=2,2,2,2': ('calc', {i(B, 'S', 'A1:A4'): [[2], [2], [2], [2]]}, {k('A%d' % r): ('n', 2.0) for r in (1, 2, 3, 4)}, None),
             'C5=0>D1': ('calc', {i(B, 'S', 'C5'): 0}, {k('C5'): ('n', 0.0)}, [i(B, 'S', 'D1')]),
+            'A1:B4=v1': ('calc', {i(B, 'S', 'A1:B4'): [[1, 10], [2, 20], [3, 30], [4, 50]]}, dict({k('A%d' % r): ('n', float(r)) for r in (1, 2, 3, 4)}, **{k('B%d' % r): ('n', v) for r, v in zip((1, 2, 3, 4), (10.0, 20.0, 30.0, 50.0))}), None),
+            'A1:B4=v2': ('calc', {i(B, 'S', 'A1:B4'): [[9, 1], [9, 2], [9, 3], [9, 4]]}, dict({k('A%d' % r): ('n', 9.0) for r in (1, 2, 3, 4)}, **{k('B%d' % r): ('n', float(r)) for r in (1, 2, 3, 4)}), None),
+            'F1:F4=1..4': ('calc', {i(B, 'S', 'F1:F4'): [[1], [2], [3], [4]]}, {k('F%d' % r): ('n', float(r)) for r in (1, 2, 3, 4)}, None),
             'compile': ('compile', [i(B, 'S', 'A1')], {k('A1'): ('n', 7.0)}, [i(B, 'S', 'D1'), i(B, 'S', 'D2')], [7]),
             'to_dict': ('to_dict',), 'write': ('write',), 'deepcopy': ('deepcopy',),
         }
@@ -112,7 +115,7 @@ def ops_for(model):
 # Overriding PART of an array-formula block is not an Excel operation ("You cannot change part of an array"): what a reader of
 # the block, or of a range overlapping it, sees of the overridden elements is not fixed by the statement.  Those readers are
 # not judged against the reference (they still must not depend on the history); everything else is.
-UNJUDGED = {'e': {'B3:C6=1..8': ['B3', 'B4', 'D3', 'D4'], 'B2=5': ['D4'], 'B4=txt': ['D4', 'D1']}}
+UNJUDGED = {'e': {'B3:C6=1..8': ['B3', 'B4', 'D3', 'D4', 'D5'], 'B2=5': ['D4', 'D5'], 'B4=txt': ['D4', 'D1', 'D5']}}
 
 
 def lib_value(v):
